@@ -54,7 +54,7 @@ type Op struct {
 	D   int     `json:"d,omitempty"`   // document index (modulo what the node has)
 	W   []Write `json:"w,omitempty"`   // create/update
 	F   int     `json:"f,omitempty"`   // patch: index into the patch-field pool
-	Def bool    `json:"def,omitempty"` // patch: setAsDefaultVersion
+	Def bool    `json:"def,omitempty"` // patch: setAsDefaultVersion; switch: through PatchCollection
 	V   int     `json:"v,omitempty"`   // switch: version index (modulo known versions)
 	All bool    `json:"all,omitempty"` // sync: every document of the collection
 }
@@ -152,11 +152,34 @@ func drawCase(t *rapid.T) Case {
 			o.Def = rapid.IntRange(0, 9).Draw(t, "setdefault") < 6
 		case "switch":
 			o.V = rapid.IntRange(0, 7).Draw(t, "version")
+			// Def: the switch is made with PatchCollection (IsActive of the previous version false, of the
+			// target true) instead of SetActiveSchemaVersion
+			o.Def = rapid.IntRange(0, 2).Draw(t, "viaPatchCollection") == 0
 		case "sync":
 			o.D = rapid.IntRange(0, 7).Draw(t, "doc")
 			o.All = rapid.IntRange(0, 2).Draw(t, "all") > 0
 		}
 		c.Ops = append(c.Ops, o)
+	}
+	if c.Two && rapid.IntRange(0, 2).Draw(t, "lateSwitchTail") == 0 {
+		// a structured ending: both nodes exchange everything (so the receiver has merged commits under
+		// its current version), a field is added - as default version on the sender only -, the receiver
+		// then switches to the new version (mostly through PatchCollection), the sender writes the new
+		// field and everything is exchanged again: the receiver must take the value of the field it now knows
+		r := rapid.IntRange(0, 1).Draw(t, "tailReceiver")
+		col := 0
+		if ncols > 1 {
+			col = rapid.IntRange(0, 1).Draw(t, "tailCol")
+		}
+		f := rapid.IntRange(0, len(patchPool)-1).Draw(t, "tailField")
+		c.Ops = append(c.Ops,
+			Op{K: "sync", N: r, C: col, All: true},
+			Op{K: "patch", N: r, C: col, F: f, Def: false},
+			Op{K: "patch", N: 1 - r, C: col, F: f, Def: true},
+			Op{K: "switch", N: r, C: col, V: -1, Def: rapid.IntRange(0, 3).Draw(t, "tailViaPatchCollection") > 0},
+			Op{K: "update", N: 1 - r, C: col, D: rapid.IntRange(0, 7).Draw(t, "tailDoc"), W: []Write{{S: -1, V: rapid.IntRange(0, 7).Draw(t, "tailSeed")}}},
+			Op{K: "sync", N: r, C: col, All: true},
+		)
 	}
 	return c
 }
